@@ -21,13 +21,13 @@ from props import c06
 PY_LOG = '''%s
 import os
 def uftrace_begin(ctx):
-    os.write(1, b"B\\n")
+    os.write(1, ("B %%d\\n" %% os.getpid()).encode())
 def uftrace_entry(ctx):
     os.write(1, ("E %%d %%d %%d %%d %%s\\n" %% (ctx["tid"], ctx["depth"], ctx["timestamp"], ctx["address"], ctx["name"])).encode())
 def uftrace_exit(ctx):
     os.write(1, ("X %%d %%d %%d %%d %%d %%s\\n" %% (ctx["tid"], ctx["depth"], ctx["timestamp"], ctx["duration"], ctx["address"], ctx["name"])).encode())
 def uftrace_end():
-    os.write(1, b"Z\\n")
+    os.write(1, ("Z %%d\\n" %% os.getpid()).encode())
 '''
 LUA_LOG = '''%s
 function uftrace_begin(ctx) print("B") end
@@ -52,10 +52,9 @@ def parse_callbacks(out, tid_idx, name_idx, addr_idx):
     for ln in out.split("\n"):
         if ln == "":
             continue
-        if ln == "B":
-            cbs.append(("B",))
-        elif ln == "Z":
-            cbs.append(("Z",))
+        mb = re.fullmatch(r"([BZ])(?: (\d+))?", ln)
+        if mb:
+            cbs.append((mb.group(1),) if mb.group(2) is None else (mb.group(1), int(mb.group(2))))
         else:
             m = re.fullmatch(r"E (-?\d+) (-?\d+) (\d+) (\d+) (\S+)", ln)
             if m:
@@ -92,6 +91,54 @@ def coq_cb(c):
 PRE = c06.PRE + "Require Import UV.C18.Model.\n"
 
 
+# ------------------------------------------------------------------ UFTRACE_FUNCS patterns
+REGEX_CHARS = ".?*+-^$|()[]{}"          # utils/filter.h: an entry without any of these is compared with strcmp
+
+
+class Funcs(list):
+    """a UFTRACE_FUNCS list; ptype = pattern type given with --match (regex is the default)"""
+    ptype = "regex"
+
+
+def funcs_ptype(funcs):
+    return getattr(funcs, "ptype", "regex")
+
+
+def entry_matches(entry, name, ptype):
+    """the oracle for script_match_filter: init_filter_pattern + match_filter_pattern (POSIX ERE search / fnmatch)"""
+    import fnmatch
+    if not any(ch in entry for ch in REGEX_CHARS):
+        return entry == name
+    if ptype == "glob":
+        return fnmatch.fnmatchcase(name, entry)
+    return re.search(entry, name) is not None
+
+
+def matched_ids(case, funcs):
+    """ids (index + 1) of the functions a UFTRACE_FUNCS list selects; [] = no list; [77777] = a list matching nothing"""
+    if funcs is None:
+        return []
+    pt = funcs_ptype(funcs)
+    ids = [i + 1 for i, n in enumerate(case["names"]) if any(entry_matches(e, n, pt) for e in funcs)]
+    return ids or [77777]
+
+
+def gen_patterns(rng, names, ptype):
+    """entries with regex / glob characters, built from the names so that some match and some do not"""
+    ns = [n for n in names if len(n) >= 3] or list(names)
+    out = []
+    for _ in range(rng.choice([1, 1, 2])):
+        n = rng.choice(ns)
+        m = rng.choice(ns)
+        if ptype == "glob":
+            out.append(rng.choice([n[:2] + "*", "*" + n[-2:], "?" + n[1:], "[" + n[0] + m[0] + "]*", n[0] + "*" + n[-1],
+                                   "*" + n[1:-1] + "*", n[:-1] + "?x"]))
+        else:
+            out.append(rng.choice(["^" + n[:2], n[-2:] + "$", n[0] + ".*" + n[-1], n + "|" + m, n[:1] + "." + n[2:],
+                                   "^(" + n + "|" + m[:2] + ")$", "[" + n[0] + m[0] + "]" + n[1:3], n[:2] + "+", "^" + n[1:]]))
+    return out
+
+
 # ------------------------------------------------------------------ replay time
 def gen_funcs(rng, case):
     names = case["names"]
@@ -104,6 +151,15 @@ def gen_funcs(rng, case):
         o = rng.choice(others)
         # a proper prefix / an extension of an unlisted name must NOT match (PATT_SIMPLE = strcmp)
         pick.append(o[:-1] if rng.random() < 0.5 else o + "x")
+    pick = Funcs(pick)
+    r = rng.random()
+    if r < 0.45:
+        # entries with pattern characters: regex (default) or glob (--match glob)
+        pick.ptype = "glob" if r < 0.2 else "regex"
+        pats = gen_patterns(rng, names, pick.ptype)
+        if rng.random() < 0.5:
+            del pick[:]
+        pick.extend(pats)
     return pick
 
 
@@ -129,18 +185,21 @@ def run_script_case(ctx, objdir, case, variants):
     tid_map = {t["tid"]: i for i, t in enumerate(case["tasks"])}
     syms = c06.sym_table(case)
     addr_map = {c06.BASE + s[0]: i + 1 for i, s in enumerate(syms)}
+    addr_map.update({c06.BASE2 + s[0]: i + 1 for i, s in enumerate(syms)})
     res = []
     replay_cache = {}
     for lang, funcs, sel in variants:
         script = os.path.join(ctx.scratch, "log.%s" % ("py" if lang == "py" else "lua"))
         write_script(script, lang, funcs)
         args = ["-S", script]
+        if funcs is not None and funcs_ptype(funcs) == "glob":
+            args.append("--match=glob")
         if sel is not None:
             args.append("--tid=" + ",".join(str(case["tasks"][i]["tid"]) for i in sel))
         rc, out, err = datadir.uftrace(objdir, "script", d, args, timeout=60)
         if rc != 0:
             ctx.violation("uftrace script failed (rc=%d): %s" % (rc, (out + err)[-300:]),
-                          {"case": case, "lang": lang, "funcs": funcs, "sel": sel}, True)
+                          {"case": case, "lang": lang, "funcs": funcs, "ptype": funcs_ptype(funcs), "sel": sel}, True)
             continue
         cbs = parse_callbacks(out, lambda t: tid_map.get(t, 999), lambda n: name_map.get(n, 88888),
                               lambda a: addr_map.get(a, 99999))
@@ -162,8 +221,20 @@ def used_names(case):
 def gen_opts(rng, case):
     """a replay-time filter option set: -D / -F / -N (modelled by C18.Filter) or -t (property check only)"""
     used = used_names(case) or case["names"][:1]
-    kind = rng.choice(["D", "D", "F", "F", "N", "DF", "FN", "DN", "t"])
-    o = {"depth": None, "F": [], "N": [], "t": None}
+    kind = rng.choice(["D", "D", "F", "F", "N", "DF", "FN", "DN", "t", "C", "H", "r", "T", "T"])
+    o = {"depth": None, "F": [], "N": [], "t": None, "extra": []}
+    if kind == "C":
+        o["extra"] = ["-C", rng.choice(used)]
+    elif kind == "H":
+        o["extra"] = ["-H", rng.choice(used)]
+    elif kind == "r":
+        a0 = rng.choice([0, 1, 3, 10])
+        o["extra"] = ["-r", "%dns~%dns" % (a0, a0 + rng.choice([1, 5, 20, 900]))]
+    elif kind == "T":
+        f = rng.choice(used)
+        o["extra"] = rng.choice([["-T", f + "@depth=1"], ["-T", f + "@depth=2"], ["-T", f + "@trace_off"],
+                                 ["--trace=off", "-T", f + "@trace_on"], ["-T", f + "@filter"], ["-T", f + "@notrace"],
+                                 ["-T", f + "@time=2ns"], ["-T", f + "@hide"]])
     if "D" in kind:
         o["depth"] = rng.choice([1, 1, 2, 2, 3, 4])
     if "F" in kind:
@@ -187,7 +258,7 @@ def opts_args(o):
         a += ["-N", n]
     if o["t"] is not None:
         a += ["-t", "%dns" % o["t"]]
-    return a
+    return a + list(o.get("extra") or [])
 
 
 def gen_funcs_for_opts(rng, case, o):
@@ -200,6 +271,10 @@ def gen_funcs_for_opts(rng, case, o):
         pick = [n for n in pick if n not in o["F"]] or pick       # the -F function itself unlisted
     if rng.random() < 0.2:
         pick.append("nosuchfunction")
+    pick = Funcs(pick)
+    if rng.random() < 0.3:
+        pick.ptype = rng.choice(["regex", "glob"])
+        pick.extend(gen_patterns(rng, case["names"], pick.ptype))
     return pick
 
 
@@ -210,17 +285,20 @@ def run_opts_case(ctx, objdir, case, variants):
     name_map = {n: i + 1 for i, n in enumerate(case["names"])}
     tid_map = {t["tid"]: i for i, t in enumerate(case["tasks"])}
     addr_map = {c06.BASE + sy[0]: i + 1 for i, sy in enumerate(c06.sym_table(case))}
+    addr_map.update({c06.BASE2 + sy[0]: i + 1 for i, sy in enumerate(c06.sym_table(case))})
     res = []
     for lang, o, funcs, sel in variants:
         script = os.path.join(ctx.scratch, "logo.%s" % ("py" if lang == "py" else "lua"))
         write_script(script, lang, funcs)
         extra = opts_args(o)
+        if funcs is not None and funcs_ptype(funcs) == "glob":
+            extra.append("--match=glob")
         if sel is not None:
             extra.append("--tid=" + ",".join(str(case["tasks"][i]["tid"]) for i in sel))
         rc, out, err = datadir.uftrace(objdir, "script", d, ["-S", script] + extra, timeout=60)
         if rc != 0:
             ctx.violation("uftrace script %s failed (rc=%d): %s" % (" ".join(extra), rc, (out + err)[-300:]),
-                          {"case": case, "lang": lang, "opts": o, "funcs": funcs, "sel": sel}, True)
+                          {"case": case, "lang": lang, "opts": o, "funcs": funcs, "ptype": funcs_ptype(funcs), "sel": sel}, True)
             continue
         cbs = parse_callbacks(out, lambda t: tid_map.get(t, 999), lambda n: name_map.get(n, 88888),
                               lambda a: addr_map.get(a, 99999))
@@ -242,11 +320,11 @@ def evaluate_opts(ctx, items, name):
         names = {n: i + 1 for i, n in enumerate(case["names"])}
         vs = []
         for (lang, o, funcs, sel), cbs, lines in obs:
-            fl = [] if funcs is None else [names[f] for f in funcs if f in names] or [77777]
+            fl = matched_ids(case, funcs)
             vs.append("(%s, [%s], %s, %s, [%s], [%s])" % (
                 coq_fopts(o, names), "; ".join(map(str, fl)),
                 "None" if sel is None else "(Some [%s])" % "; ".join("%d%%nat" % i for i in sel),
-                coq.coq_bool(o["t"] is None),
+                coq.coq_bool(o["t"] is None and not o.get("extra")),
                 "; ".join(coq_cb(c) for c in cbs), "; ".join(c06.coq_line(l) for l in lines)))
         defs.append("Definition c%d : ocase := ([%s], [%s], [%s])." % (
             ci, "; ".join(str(k + 1) for k in case["forks"]), ";\n ".join(c06.coq_task(t) for t in case["tasks"]),
@@ -272,7 +350,7 @@ def verdict_opts(ctx, items, res):
         ctx.violation("C18 violated: with the options `%s` the callbacks of a %s script (UFTRACE_FUNCS=%s) are not the listed "
                       "functions' sub-sequence of what `uftrace replay` shows with the same options"
                       % (" ".join(opts_args(o)), lang, funcs),
-                      {"case": case, "lang": lang, "opts": o, "funcs": funcs, "sel": sel, "callbacks": cbs[:200]}, True)
+                      {"case": case, "lang": lang, "opts": o, "funcs": funcs, "ptype": funcs_ptype(funcs), "sel": sel, "callbacks": cbs[:200]}, True)
     if res["mismatch"] and not res["violations"]:
         ci, vi = flat[res["mismatch"][0]]
         case, obs = items[ci]
@@ -280,7 +358,7 @@ def verdict_opts(ctx, items, res):
         ctx.violation("filter model (C18.Filter) and implementation disagree on %d (case, options) pairs; the property checker "
                       "accepts every explored output" % len(res["mismatch"]),
                       {"correspondence": "C18.Filter.script_opts / replay_opts vs uftrace script / replay with %s" % " ".join(opts_args(o)),
-                       "case": case, "lang": lang, "opts": o, "funcs": funcs, "sel": sel, "callbacks": cbs[:200]}, False)
+                       "case": case, "lang": lang, "opts": o, "funcs": funcs, "ptype": funcs_ptype(funcs), "sel": sel, "callbacks": cbs[:200]}, False)
     ctx.extra["disagreements_checked"] = ctx.extra.get("disagreements_checked", 0) + len(res["mismatch"])
 
 
@@ -300,7 +378,7 @@ def evaluate(ctx, items, name):
         names = {n: i + 1 for i, n in enumerate(case["names"])}
         vs = []
         for (lang, funcs, sel), cbs, lines in obs:
-            fl = [] if funcs is None else [names[f] for f in funcs if f in names] or [77777]
+            fl = matched_ids(case, funcs)
             vs.append("([%s], %s, [%s], [%s])" % (
                 "; ".join(map(str, fl)),
                 "None" if sel is None else "(Some [%s])" % "; ".join("%d%%nat" % i for i in sel),
@@ -328,7 +406,7 @@ def verdict(ctx, items, res):
         (lang, funcs, sel), cbs, lines = obs[vi]
         ctx.violation("C18 violated: the callbacks a %s script received differ from the calls `uftrace replay` shows for "
                       "the same data and options (UFTRACE_FUNCS=%s, --tid=%s)" % (lang, funcs, sel),
-                      {"case": case, "lang": lang, "funcs": funcs, "sel": sel, "callbacks": cbs[:200]}, True)
+                      {"case": case, "lang": lang, "funcs": funcs, "ptype": funcs_ptype(funcs), "sel": sel, "callbacks": cbs[:200]}, True)
     if res["mismatch"] and not res["violations"]:
         ci, vi = flat[res["mismatch"][0]]
         case, obs = items[ci]
@@ -336,7 +414,7 @@ def verdict(ctx, items, res):
         ctx.violation("model and implementation of `uftrace script` disagree on %d (case, variant) pairs; the property "
                       "checker accepts every explored output" % len(res["mismatch"]),
                       {"correspondence": "C18.Model.script_run vs callbacks of a logging script", "case": case,
-                       "lang": lang, "funcs": funcs, "sel": sel, "callbacks": cbs[:200]}, False)
+                       "lang": lang, "funcs": funcs, "ptype": funcs_ptype(funcs), "sel": sel, "callbacks": cbs[:200]}, False)
     ctx.extra["disagreements_checked"] = ctx.extra.get("disagreements_checked", 0) + len(res["mismatch"])
 
 
@@ -368,22 +446,29 @@ def record_time(ctx, objdir):
     os.makedirs(root, exist_ok=True)
     rng = ctx.rng
     uft = os.path.join(objdir, "uftrace")
-    runs = ctx.n(5, 30)
+    base_runs = ctx.n(5, 30)
+    runs = base_runs + ctx.n(4, 10)       # + regression runs: a Lua script and four busy threads (fix: interpreter lock)
     terms, metas = [], []
     for k in range(runs):
         nthr = rng.choice([1, 2, 3, 4])
         work = rng.choice([1, 2, 5])
-        with_fork = rng.random() < 0.4 and k >= 2 and k % 2 == 0   # option-free runs only (see ropts below): the harness
+        stress = k >= base_runs
+        if stress:
+            nthr, work = 4, 5
+        with_fork = (k == 2) or rng.random() < 0.4 and k >= 2 and k % 2 == 0   # option-free runs only (see ropts below): the harness
         #                                                  locates the child's inherited frames by the fork() entry callback
         funcs = rng.choice([None, None, ["mid"], ["leaf", "rec"], ["worker", "main", "nosuch"]])
         if funcs and with_fork:
             funcs = funcs + ["fork"]        # the harness locates the child's inherited frames by the fork() entry
+        if stress:
+            funcs, with_fork = None, False
         src = os.path.join(root, "p%d.c" % k)
         open(src, "w").write(PROG % {"nthr": nthr, "work": work, "fork": FORK_PART if with_fork else ""})
         exe = os.path.join(root, "p%d" % k)
         sh(["gcc", "-pg", "-O0", "-pthread", "-o", exe, src], check=True)
-        script = os.path.join(root, "log%d.py" % k)
-        write_script(script, "py", funcs)
+        lang = "lua" if (k % 5 == 4 or stress) else "py"
+        script = os.path.join(root, "log%d.%s" % (k, lang))
+        write_script(script, lang, funcs)
         d = os.path.join(root, "rec%d.data" % k)
         shutil.rmtree(d, ignore_errors=True)
         # record-time options: the pairing clause must hold under every filter / trigger option set
@@ -402,10 +487,12 @@ def record_time(ctx, objdir):
             ropts = ["-T", "rec@trace_off"]
         if k == 3:
             ropts = ["-t", "1ms", "-T", "mid@read=proc/statm", "-W", "cpu"]   # time-filtered calls with pending events
+        if stress:
+            ropts = []
         rc, out, err = sh(["timeout", "60", uft, "record", "--no-pager", "--no-event", "--libmcount-path=" + objdir,
                            "-d", d, "-S", script] + ropts + [exe], timeout=90,
                           env={"PYTHONPATH": os.path.join(objdir, "python")})
-        meta = {"threads": nthr, "work": work, "fork": with_fork, "funcs": funcs, "record_options": ropts}
+        meta = {"threads": nthr, "work": work, "fork": with_fork, "funcs": funcs, "record_options": ropts, "lang": lang}
         if rc != 0:
             ctx.violation("uftrace record -S failed (rc=%d): %s" % (rc, (out + err)[-300:]), {"record_time": meta}, True)
             continue
@@ -416,7 +503,14 @@ def record_time(ctx, objdir):
         # the text alone, so only the paired-ness per tid is judged (B/Z of the child are dropped)
         inner = [c for c in cbs if c[0] in ("E", "X", "?")]
         cbs2 = [("B",)] + inner + [("Z",)]
-        ok_shape = bool(cbs) and cbs[0] == ("B",) and cbs[-1] == ("Z",)
+        # uftrace_begin exactly once (before anything else); uftrace_end exactly once per process (the forked child
+        # inherits the interpreter and ends it itself), the recorded program's own end last
+        bs = [c for c in cbs if c[0] == "B"]
+        zs = [c for c in cbs if c[0] == "Z"]
+        zpids = [c[1] for c in zs if len(c) > 1]
+        ok_shape = (bool(cbs) and cbs[0][0] == "B" and cbs[-1][0] == "Z" and len(bs) == 1
+                    and len(zs) == (2 if with_fork else 1) and len(set(zpids)) == len(zpids)
+                    and (lang != "py" or (len(bs[0]) > 1 and cbs[-1][1:] == bs[0][1:])))
         # names the recording has per tid, from replay of the data just written
         rc2, out2, err2 = datadir.uftrace(objdir, "replay", d, ["--no-merge", "-f", "tid"], timeout=60)
         rep = {}
@@ -459,7 +553,7 @@ def record_time(ctx, objdir):
                                                  for t, st in inits.items()),
                                        "; ".join(coq_cb(c) for c in cbs2)))
         metas.append((meta, ok_shape, same, got, want))
-        ctx.case(key=("record", k, repr(meta)), tags=["record-time", "threads=%d" % nthr, "ropts:" + (" ".join(o for o in ropts if o.startswith("-")) or "none")] + (["fork"] if with_fork else [])
+        ctx.case(key=("record", k, repr(meta)), tags=["record-time", "threads=%d" % nthr, "ropts:" + (" ".join(o for o in ropts if o.startswith("-")) or "none"), "record-lang=" + lang] + (["fork"] if with_fork else [])
                  + (["UFTRACE_FUNCS"] if funcs else []), size=len(inner))
     if not terms:
         return
@@ -510,7 +604,7 @@ def run(ctx):
     common_meta(ctx)
     objdir = setup(ctx)
     rng = ctx.rng
-    cases = c06.hand_cases()
+    cases = [c for c in c06.hand_cases() if not c.get("variants_only")]
     n = ctx.n(40, 400)
     for k in range(n):
         cases.append(c06.gen_case(rng, "small" if k % 3 else "medium"))
@@ -580,14 +674,18 @@ def replay(ctx, obj):
         else:
             ctx.log("replay file has no case; nothing to re-execute")
         return
+    fn = obj.get("funcs")
+    if fn is not None:
+        fn = Funcs(fn)
+        fn.ptype = obj.get("ptype", "regex")
     if obj.get("opts"):
-        obs = run_opts_case(ctx, objdir, case, [(obj.get("lang", "py"), obj["opts"], obj.get("funcs"), obj.get("sel"))])
+        obs = run_opts_case(ctx, objdir, case, [(obj.get("lang", "py"), obj["opts"], fn, obj.get("sel"))])
         for (lang, o, funcs, sel), cbs, lines in obs:
             ctx.log("replayed %s script with %s: %d callbacks, %d replay lines" % (lang, " ".join(opts_args(o)), len(cbs), len(lines)))
             ctx.case(key=("replay", lang, repr(o), repr(funcs)), sample={"callbacks": [list(c) for c in cbs][:40]})
         verdict_opts(ctx, [(case, obs)], evaluate_opts(ctx, [(case, obs)], "replay"))
         return
-    variants = [(obj.get("lang", "py"), obj.get("funcs"), obj.get("sel"))]
+    variants = [(obj.get("lang", "py"), fn, obj.get("sel"))]
     obs = run_script_case(ctx, objdir, case, variants)
     for (lang, funcs, sel), cbs, lines in obs:
         ctx.log("replayed %s script: %d callbacks, %d replay lines" % (lang, len(cbs), len(lines)))
